@@ -1,35 +1,18 @@
 import Batteries.Data.List.Perm
 import PolyVerif.Lemmas.CodonTranslate
-import PolyVerif.Spec.Ncbi
+import PolyVerif.Lemmas.NcbiRowDefs
+import PolyVerif.Lemmas.NcbiRows1
+import PolyVerif.Lemmas.NcbiRows2
+import PolyVerif.Lemmas.NcbiRows3
+import PolyVerif.Lemmas.NcbiRows4
+import PolyVerif.Lemmas.NcbiRows5
 /-
-The table obligations of C06, arranged so that the kernel can decide them quickly: one Boolean pass per
-table (`rowOk`), decided in five chunks (the kernel checks them in parallel), and the lemmas that turn the
-Boolean back into the statements used by Props/C06 and Props/C07.
+The table obligations of C06: the five `rows_ok_*` chunks (decided by the kernel on the regenerated tables,
+one file each so that they are checked in parallel) are collected into `rows_ok`, and the Boolean is turned
+back into the statements used by Props/C06 and Props/C07.
 -/
 namespace PolyVerif.CodonTranslate
 open PolyVerif PolyVerif.Codon
-
-/-- what `codon.Translate` returned for the 64 codons under table `id` (`Gen.translate64`) -/
-def gen64 (id : Nat) : Str := match gen64? id with | some r => r | none => []
-
-/-- one row: for each of the 64 codons, NCBI's residue = the extracted answer of `Translate` = the model's
-lookup in the regenerated table -/
-def cells (id : Nat) (m : List (Str × Str)) : List Str → Str → Bool
-  | c :: cs, r :: rs => (Spec.Ncbi.aa id c == some r && mapGetStr m c == [r]) && cells id m cs rs
-  | [], [] => true
-  | _, _ => false
-
-def rowOk (id : Nat) : Bool :=
-  match genTable? id, gen64? id with
-  | some t, some row =>
-    cells id (translationMap t) all64 row && (triplets t).length == 64 && t.aminoAcids.all fun a => a.letter.length == 1
-  | _, _ => false
-
-theorem rows_ok_a : ∀ id ∈ [1, 2, 3, 4, 5], rowOk id = true := by decide +kernel
-theorem rows_ok_b : ∀ id ∈ [6, 9, 10, 11, 12], rowOk id = true := by decide +kernel
-theorem rows_ok_c : ∀ id ∈ [13, 14, 16, 21, 22], rowOk id = true := by decide +kernel
-theorem rows_ok_d : ∀ id ∈ [23, 24, 25, 26, 27], rowOk id = true := by decide +kernel
-theorem rows_ok_e : ∀ id ∈ [28, 29, 30, 31, 33], rowOk id = true := by decide +kernel
 
 theorem ncbi_ids : Spec.Ncbi.ids =
     [1, 2, 3, 4, 5] ++ [6, 9, 10, 11, 12] ++ [13, 14, 16, 21, 22] ++ [23, 24, 25, 26, 27] ++ [28, 29, 30, 31, 33] := by
